@@ -257,3 +257,11 @@ pub fn grads_from_lib(wg: &[Tensor], bg: &[Option<Tensor>], spec: &Net) -> Resul
     }
     (0..n).map(|i| one(&spec.layers[i], &wg[n - 1 - i], &bg[n - 1 - i])).collect()
 }
+
+/// build + install parameters without going through gen.rs
+pub fn build_with_simple(spec: &Net, params: &[P<f32>]) -> Result<Network, String> {
+    let shapes = crate::refmodel::net::ref_shapes(spec)?;
+    let mut net = crate::util::guard(|| build(spec))?;
+    crate::util::guard(|| set_params(&mut net, spec, &shapes, params))?;
+    Ok(net)
+}
